@@ -40,8 +40,7 @@ func (rg *c18rig) runStepped(ast types.MalType, script []int, r *vf.Rec) (implOu
 	lisp.Stepper = func(a types.MalType, e types.EnvType) debuggertypes.Command {
 		cmd := script[calls%len(script)]
 		calls++
-		_, o1, o2 := lisp.VerifStepFlags()
-		r.Outcome(fmt.Sprintf("stepper state outing1=%v outing2=%v cmd=%s", o1, o2, c18CmdNames[cmd]))
+		r.Outcome(fmt.Sprintf("stepper state [flags set: %s] cmd=%s", lisp.VerifStepFlags(), c18CmdNames[cmd]))
 		if e == nil {
 			bad = "callback received a nil scope"
 		}
